@@ -113,6 +113,9 @@ func init() {
 	reg("ok-short", "ok", func(p *project) { delete(p.files, "ops/b.graphql"); p.files["ops/a.graphql"] = opsShort })
 	reg("ok-noexport", "ok", func(p *project) { p.export = "" })
 	reg("ok-mid", "ok", func(p *project) { delete(p.files, "ops/b.graphql") })
+	// outputs in directories that do not exist yet, different for the two files
+	reg("ok-export-newdir", "ok", func(p *project) { p.export = "newexp/sub/ops.json" })
+	reg("ok-both-newdirs", "ok", func(p *project) { p.export = "newexp/sub/ops.json"; p.gen = "newgen/generated.go" })
 	reg("ok-go-literal", "ok", func(p *project) {
 		delete(p.files, "ops/b.graphql")
 		p.files["ops/q.go"] = "package ops\n\nconst q = `# @genqlient\nquery FromGo { kind }`\n"
@@ -301,7 +304,7 @@ func (r *runner) id(content string) int {
 	return v
 }
 
-var watched = []string{"generated.go", "ops.json", "blocker/generated.go", "keep.txt", "blocker"}
+var watched = []string{"generated.go", "ops.json", "blocker/generated.go", "keep.txt", "blocker", "newexp/sub/ops.json", "newgen/generated.go"}
 
 func sentinel(name string) string {
 	return "// LAST GOOD OUTPUT of " + name + "\n" + strings.Repeat("// padding so that this file is longer than anything the generator emits\n", 400)
@@ -577,6 +580,8 @@ func genCases(rng *core.Rng, tier string) []*Case {
 	add(true, "ok-short")
 	add(true, "ok-noexport", "ok-long")
 	add(false, "ok-short", "ok-long", "ok-mid", "ok-go-literal")
+	add(false, "ok-export-newdir", "ok-long")
+	add(true, "ok-both-newdirs")
 	add(false, "ok-long", "fs-gen-is-dir", "ok-short")
 	add(true, "fs-parent-is-file")
 	add(false, "fs-gen-is-dir")
